@@ -59,7 +59,10 @@ def keys_through_keeper(v, d, seed, tier):
         d_ = "scenario %d (real wallet behind the real keeper): step %d %s: selection %s, index %s, files %s, signing %s" % (
             t["sc"], k + 1, desc(e), [(s["o"], s["bl"]) for s in e.get("sel", [])][:10], [(s["o"], s["bl"]) for s in e.get("idx", [])][:10],
             [(s["o"], s["bl"]) for s in e.get("files", [])][:10], e.get("signbad") or e.get("signok"))
-        if e.get("a") == "Restart" or e.get("signok") is False or e.get("walleterr"):
+        # attribution only (the rejection is TLC's): does the disagreement concern keys / ordinals?
+        pairs = lambda xs: sorted((x.get("o"), x.get("bl")) for x in xs or [])
+        keyish = pairs(e.get("idx")) != pairs(e.get("files")) or any(p_ not in pairs(e.get("files")) for p_ in pairs(e.get("sel")))
+        if e.get("a") == "Restart" or e.get("signok") is False or e.get("walleterr") or keyish:
             v.classify(dict(cause="keys_through_keeper", action=e.get("a")), d_, dict(scenario=scen[i], rejected_step=k + 1, event=e))
         else:
             log("NOTE (belongs to C15): " + d_[:300])
